@@ -1,7 +1,9 @@
 import Driver.Proto
 import Model.TaskQueue
+import Model.TaskQueueNew
 import Std.Data.HashSet
-/-! Model driver of C15 (task queue).  Area `forced`: scripts of environment actions
+/-! Model driver of C15 (task queue).  Area `cfg`: `cfg <ncpu> <option>*` prints the configuration `New` makes of the
+  options (Model/TaskQueueNew.lean).  Area `forced`: scripts of environment actions
 
       reset | new <workers> <depth> <inCap> [<handler mode 0..3>] | sub <n|p|s|r|x|e|z|f|w|0|v>+ | rel <id>* | shut | relshut <id>* | obs | end
 
@@ -150,9 +152,25 @@ def doShut (d : D) : D × String :=
     let (d', o) := settle d "" d.nodes
     (d', "nondet shut " ++ o)
 
+/-- an option of area `cfg`: `w=<int>` Workers, `d=<int>` Depth, `h=0` RecoveryHandler(nil), `h=1` RecoveryHandler(non-nil) -/
+def parseOpt (w : String) : Option TQNew.Opt :=
+  match w.splitOn "=" with
+  | ["w", x] => x.toInt?.map .workers
+  | ["d", x] => x.toInt?.map .depth
+  | ["h", "0"] => some (.handler false)
+  | ["h", "1"] => some (.handler true)
+  | _ => none
+
 def step (d : D) (line : String) : D × String :=
   match stripHint (words line) with
   | ["reset"] => ({}, "reset")
+  | "cfg" :: n :: opts =>
+    -- area `cfg`: what `New(opts...)` makes of its options on a machine with n CPUs (Model/TaskQueueNew.lean)
+    match n.toNat?, opts.mapM parseOpt with
+    | some n, some os =>
+      let c := TQNew.newCfg n os
+      (d, s!"workers={c.workers} depth={c.depth} incap={c.inCap} handler={c.handler}")
+    | _, _ => (d, "bad-op")
   | "new" :: w :: dp :: ic :: rest =>
     -- optional handler mode: 0 recording handler (default), 1 no RecoveryHandler option, 2 RecoveryHandler(nil),
     -- 3 handler that records and then panics; the model only distinguishes "handler installed" (0, 3) from "none" (1, 2)
